@@ -119,55 +119,77 @@ theorem klae_optimal (inp : ErrInput) (a : Asg) (h : BaseWF inp.fi.base) (hac : 
   refine ⟨ps, hps, fun P' w' hr h0 hint => hmin P' w' ⟨fun i hi => ?_, h0, hint⟩⟩
   exact route_of_validRoute inp.fi.base inp.fi.starts inp.fi.ends h hac _ _ (hr i hi)
 
-/-! ### (e) objective consistency -/
+/-! ### (e) objective consistency
 
-/-- **`get_objective_value()` agrees with the solver's objective exactly when every non-ignored edge
-has scale 1 or a zero error column** (scales ≤ 1 as the constructor checks). `reportedObjective`
-models `sum(edge_errors.values())`. -/
-theorem objective_consistent_iff (inp : ErrInput) (a : Asg) (hsat : Sat a (klaeLP inp))
-    (hscale : ∀ e ∈ inp.basicEdges, inp.scale e ≤ 1) :
-    reportedObjective inp a = evalTerms a (klaeLP inp).obj ↔
-      ∀ e ∈ inp.basicEdges, inp.scale e = 1 ∨ a (eeVar e) = 0 :=
-  FP.objective_consistent_iff inp a hsat hscale
+`reportedObjective` models `get_objective_value()` as it is since fix 1c464ac:
+`sum(err * error_scaling.get(e, 1) for e, err in edge_errors.items())`, the error columns read back
+from the solver times their scale factors. (Before the fix the method returned the unscaled sum,
+which agrees with the solver's objective only if every edge has scale 1 or a zero error column —
+`FP.unscaledErrorSum_eq_objective_iff` — so that `is_valid_solution()` rejected the model's own
+optimum under `error_scaling`.) -/
 
-/-- without `error_scaling` (all scales 1) the two objectives coincide on every assignment -/
-theorem objective_consistent_unscaled (inp : ErrInput) (a : Asg)
-    (h1 : ∀ e ∈ inp.basicEdges, inp.scale e = 1) :
-    reportedObjective inp a = evalTerms a (klaeLP inp).obj := by
-  rw [FP.klaeLP_obj]
-  apply sum_map_congr
-  intro e he
-  rw [h1 e he]; grind
+/-- **the reported objective equals the solver's objective `Σ scale(e)·ee(e)` — for every assignment
+of the columns**, in particular for whatever solution the solver returns -/
+theorem objective_consistent (inp : ErrInput) (a : Asg) :
+    reportedObjective inp a = evalTerms a (klaeLP inp).obj :=
+  FP.objective_consistent inp a
 
-/-- **the code falsifies "the reported objective equals the solver's objective" under
-`error_scaling`**: on `a → b → c`, `f = (4, 1)`, `error_scaling = {(a,b): 1/2}`, `k = 1`,
-`weight_type = int` there is a satisfying assignment (path `a,b,c`, weight 1, errors `3, 0`) with
-`get_objective_value() = 3` and solver objective `3/2` — the difference `3/2` exceeds the tolerance
-`0.001·k` of `is_valid_solution()`. -/
-theorem objective_inconsistent_witness :
-    ∃ a : Asg, Sat a (klaeLP ErrExample.inp) ∧ reportedObjective ErrExample.inp a = 3 ∧
-      evalTerms a (klaeLP ErrExample.inp).obj = 3/2 := by
+/-- hence the objective clause of `is_valid_solution(tolerance)` —
+`abs(get_objective_value() − solver objective) > tolerance · original_k` rejects — never rejects, for
+any tolerance ≥ 0 -/
+theorem objective_check_passes (inp : ErrInput) (a : Asg) (tol : Rat) (htol : 0 ≤ tol) (originalK : Nat) :
+    objectiveCheckPasses inp a tol originalK :=
+  FP.objective_check_passes inp a tol htol originalK
+
+/-- **at an optimum the reported objective is the total scaled absolute error recomputed from the
+returned paths and weights** (objective consistency + tightness of the error columns), and the
+per-edge errors `ee(e)` are the recomputed `|f(e) − Σ_i w_i[e ∈ p_i]|` on every edge of positive scale -/
+theorem reported_objective_at_optimum (inp : ErrInput) (a : Asg) (h : BaseWF inp.fi.base)
+    (hac : Acyclic inp.fi.base)
+    (hcons : inp.fi.cfg.constraints = []) (hlen : inp.fi.cfg.lengths = none)
+    (hfint : inp.fi.weightInt = true → ∀ e ∈ inp.basicEdges, IsInt (inp.fi.f e))
+    (hscale : ∀ e ∈ inp.basicEdges, 0 ≤ inp.scale e)
+    (hsat : Sat a (klaeLP inp))
+    (hopt : ∀ a', Sat a' (klaeLP inp) → evalTerms a (klaeLP inp).obj ≤ evalTerms a' (klaeLP inp).obj) :
+    ∃ ps : List (List Node),
+      decodePaths inp.st (fun e i => a (edgeVar e i)) inp.k = some ps ∧
+      reportedObjective inp a = totalErr inp (fun i => ps.getD i []) (fun i => a (weightsVar i)) ∧
+      ∀ e ∈ inp.basicEdges, 0 < inp.scale e →
+        a (eeVar e) = absErr inp (fun i => ps.getD i []) (fun i => a (weightsVar i)) e := by
+  obtain ⟨ps, hps, _, _, htight, hobj⟩ :=
+    FP.klae_opt_transfer inp a h hac hcons hlen hfint hscale hsat hopt
+  exact ⟨ps, hps, by rw [FP.objective_consistent, hobj], htight⟩
+
+/-- **regression example for fix 1c464ac**: on `a → b → c`, `f = (4, 1)`,
+`error_scaling = {(a,b): 1/2}`, `k = 1`, `weight_type = int` the path `a,b,c` with weight 1 and errors
+`3, 0` is a satisfying assignment with solver objective `3/2` and reported objective `3/2` (the
+pre-fix unscaled sum is `3`) -/
+theorem objective_regression_example :
+    ∃ a : Asg, Sat a (klaeLP ErrExample.inp) ∧ evalTerms a (klaeLP ErrExample.inp).obj = 3/2 ∧
+      reportedObjective ErrExample.inp a = 3/2 ∧ unscaledErrorSum ErrExample.inp a = 3 := by
   obtain ⟨a, hsat, _, _, hee, hobj⟩ := FP.klae_complete ErrExample.inp ErrExample.P ErrExample.w
     ErrExample.base_wf ErrExample.base_acyclic rfl rfl ErrExample.flows_int ErrExample.bounded
-  refine ⟨a, hsat, ?_, by rw [hobj, ErrExample.totalErr_val]⟩
-  unfold reportedObjective
+  refine ⟨a, hsat, by rw [hobj, ErrExample.totalErr_val],
+    by rw [FP.objective_consistent, hobj, ErrExample.totalErr_val], ?_⟩
+  unfold unscaledErrorSum
   rw [← ErrExample.sumErr_val]
   exact sum_map_congr _ _ _ hee
 
-/-- **every optimum of that instance is reported inconsistently**: whatever optimal assignment the
-solver returns, the solver objective is `3/2` and `get_objective_value()` is `3`, so the objective
-clause of `is_valid_solution()` (`|3 − 3/2| > 0.001·k`) rejects the model's own optimal solution. -/
-theorem every_optimum_inconsistent (a : Asg) (hsat : Sat a (klaeLP ErrExample.inp))
+/-- … and *every* optimum of that instance has error columns `3` and `0`, solver objective `3/2`
+and reported objective `3/2` -/
+theorem every_optimum_consistent (a : Asg) (hsat : Sat a (klaeLP ErrExample.inp))
     (hopt : ∀ a', Sat a' (klaeLP ErrExample.inp) →
       evalTerms a (klaeLP ErrExample.inp).obj ≤ evalTerms a' (klaeLP ErrExample.inp).obj) :
-    reportedObjective ErrExample.inp a = 3 ∧ evalTerms a (klaeLP ErrExample.inp).obj = 3/2 :=
-  ErrExample.every_optimum_inconsistent a hsat hopt
+    a (eeVar ("a", "b")) = 3 ∧ a (eeVar ("b", "c")) = 0 ∧
+      evalTerms a (klaeLP ErrExample.inp).obj = 3/2 ∧ reportedObjective ErrExample.inp a = 3/2 ∧
+      unscaledErrorSum ErrExample.inp a = 3 :=
+  ErrExample.every_optimum_consistent a hsat hopt
 
 /-! ### non-vacuity -/
 
 /-- the hypotheses of the soundness theorem are satisfiable on a non-trivial instance -/
 example : ∃ a, Sat a (klaeLP ErrExample.inp) := by
-  obtain ⟨a, h, _⟩ := objective_inconsistent_witness
+  obtain ⟨a, h, _⟩ := objective_regression_example
   exact ⟨a, h⟩
 
 /-- … and so are those of the completeness / adequacy theorems -/
